@@ -86,7 +86,7 @@ def run(chk, tier):
         return
     r = ret.payloads[0][0]
     errv = ret.payloads[1][0]
-    recs = [x for x in ev.loops_log if x.body == key]
+    recs = [x for x in ev.loops_log if x.body == key and not x.closed]  # (loops with an exact closed form are plain arithmetic)
     warm = None
     if len(recs) == 2:
         # the same 400 probes as a warm-up loop of 100 followed by a measuring loop of 300
